@@ -108,7 +108,9 @@ def run_tlc(ctx, module, cfg, workers=None, timeout=600, env=None, extra=(), con
     if env:
         e.update(env)
     # deep operator recursion (folds over pending steps) needs more than the default thread stack
-    e["JAVA_TOOL_OPTIONS"] = (e.get("JAVA_TOOL_OPTIONS", "") + " -Xss256m").strip()
+    jt = os.path.join(d, "jtmp")
+    os.makedirs(jt, exist_ok=True)   # TLC leaves an empty tlc-<n> directory in java.io.tmpdir per run: keep it in the scratch
+    e["JAVA_TOOL_OPTIONS"] = (e.get("JAVA_TOOL_OPTIONS", "") + " -Xss256m -Djava.io.tmpdir=" + jt).strip()
     cmd = ["timeout", str(timeout), "tlc", "-workers", str(workers or min(NCPU, 8)), "-metadir", os.path.join(d, "md"),
            "-config", cfg] + list(extra) + [module + ".tla"]
     t = time.time()
